@@ -16,6 +16,7 @@ func init() {
 			"ORD5: (*FunctionCall).Evaluate returns NULL without calling the function whenever an argument listed in nullCheckIndices is NULL, evaluates every argument and propagates evaluation errors. " +
 			"TAB1: the strictness table extracted from the FunctionMap literal — comparison, arithmetic, string and conversion functions are Strict; `is null`/`is not null` are not strict and construct only Booleans. NOT: truth table of the `not` body. " +
 			"ABS3: the Filter node forwards a record iff the predicate evaluated to Boolean TRUE (cases TRUE/FALSE/NULL/non-Boolean/error). " +
+			"ASSERT: an argument wrapped in a runtime type assertion keeps the static type target ∩ argument type with the nullable target for strict functions, so the NULL check is still inserted. " +
 			"MIR4: the strict-null predicate used by the type checker (output becomes nullable) and by Materialize (null check inserted) is the same.",
 		NotDecided: []string{"the results of the individual comparison functions on non-NULL arguments (C09/C13)", "NULL handling inside non-strict functions other than IS [NOT] NULL"},
 	})
@@ -148,6 +149,8 @@ func runC11(c *core.Ctx) {
 	checkStrictTable(c, ids)
 	checkFilter(c, ids)
 	checkStrictMirror(c)
+	c.Rule("ASSERT", "runtime type assertions keep the nullability of their target, so strict calls still see (and short-circuit on) NULL")
+	checkAssertionSites(c)
 }
 
 func checkFunctionCall(c *core.Ctx, ids map[string]int64) {
